@@ -46,7 +46,7 @@ vals = st.sampled_from([-2.0, -1.0, -0.5, 0.0, 0.5, 1.0, 2.0, 3.0])
 def limiter_cases(draw):
     n = draw(st.integers(1, 5))
     kind = draw(st.sampled_from(['Limiter', 'HardLimiter', 'DeadBand', 'AntiWindup', 'LessThan', 'IsEqual',
-                                 'Switcher', 'Selector', 'RateLimiter', 'AntiWindupRate']))
+                                 'Switcher', 'Selector', 'RateLimiter', 'AntiWindupRate', 'AntiWindupIter', 'AntiWindupIter']))
     lo, up, u = [], [], []
     for _ in range(n):
         a, b = sorted([draw(vals), draw(vals)])
@@ -63,7 +63,10 @@ def limiter_cases(draw):
                 de=[draw(st.sampled_from([-3.0, -1.0, -0.5, 0.0, 0.5, 1.0, 3.0])) for _ in range(n)],
                 rlo=[draw(st.sampled_from([-2.0, -1.0, -0.5])) for _ in range(n)], rup=[draw(st.sampled_from([0.5, 1.0, 2.0])) for _ in range(n)],
                 clo=[draw(st.sampled_from([0, 1])) for _ in range(n)], cup=[draw(st.sampled_from([0, 1])) for _ in range(n)],
-                cond_given=draw(st.booleans()))
+                cond_given=draw(st.booleans()),
+                # AntiWindupIter: the (state, derivative) pairs the Newton iterations 1..8 of one step present to the limiter
+                iters=[[(draw(st.sampled_from([lo[k], up[k], lo[k] - 0.5, up[k] + 0.5, 0.5 * (lo[k] + up[k])])),
+                         draw(st.sampled_from([-1.0, 0.0, 1.0]))) for k in range(n)] for _ in range(8)] if kind == 'AntiWindupIter' else None)
 
 
 def limiter_case(ctx, c):
@@ -145,6 +148,51 @@ def limiter_case(ctx, c):
             if state.v[k] != want_x or state.e[k] != want_e:
                 ctx.fail('pegged_state_not_at_limit', dict(case=c, device=k, x=float(state.v[k]), e=float(state.e[k]),
                                                            expected_x=float(want_x), expected_e=float(want_e)), sig=sig)
+    elif kind == 'AntiWindupIter':
+        # the sequence of evaluations the Newton iterations of one step perform on one anti-windup limiter; after the
+        # documented lock (niter > niter_lock) a pegged state stays pegged, so the comparison is demanded only before it;
+        # at every iteration: flags one-hot, a flagged state sits at its limit with zero derivative, a free one is untouched
+        state = Holder(c['u'], 'x')
+        state.e = np.array(c['e'], dtype=float)
+        comp = D.AntiWindup(state, lower, upper, no_lower=c['no_lower'], no_upper=c['no_upper'], sign_lower=sl, sign_upper=su)
+        comp.list2array(n)
+        seq = [list(zip(c['u'], c['e']))] + [list(map(tuple, it)) for it in c['iters']]
+        prev = None
+        for niter, pts in enumerate(seq):
+            xv = np.array([p[0] for p in pts], dtype=float)
+            ev = np.array([p[1] for p in pts], dtype=float)
+            state.v[:] = xv
+            state.e[:] = ev
+            comp.check_eq(niter=niter)
+            zi, zlg, zug = (np.broadcast_to(np.asarray(z, float), (n,)).copy() for z in (comp.zi, comp.zl, comp.zu))
+            sigk = dict(sig, after_lock=bool(niter > comp.niter_lock))
+            if np.any(zi + zlg + zug != 1):
+                k = int(np.argmax(zi + zlg + zug != 1))
+                ctx.fail('flags_not_one_hot', dict(case=c, niter=niter, device=k, zi=float(zi[k]), zl=float(zlg[k]), zu=float(zug[k])), sig=sigk)
+            zu = (xv >= up) & (ev >= 0) & (not c['no_upper'])
+            zl = (xv <= lo) & (ev <= 0) & (not c['no_lower'])
+            if niter <= comp.niter_lock:
+                bad = ((zug == 1) & ~zu) | ((zlg == 1) & ~zl) | ((zi == 1) & (zu | zl))
+                if np.any(bad):
+                    ctx.fail('flags_disagree_with_comparison', dict(case=c, niter=niter, zi=zi.tolist(), zl=zlg.tolist(), zu=zug.tolist()), sig=sigk)
+            elif prev is not None:
+                # locked: a state that was pegged at the previous iteration is still pegged
+                released = ((prev[1] == 1) | (prev[2] == 1)) & (zi == 1)
+                if np.any(released):
+                    ctx.fail('locked_limiter_released', dict(case=c, niter=niter, device=int(np.argmax(released))), sig=sigk)
+            for k in range(n):
+                if zug[k] == 1:
+                    want_x, want_e = up[k], 0.0
+                elif zlg[k] == 1:
+                    want_x, want_e = lo[k], 0.0
+                else:
+                    want_x, want_e = xv[k], ev[k]
+                if state.v[k] != want_x or state.e[k] != want_e:
+                    ctx.fail('pegged_state_not_at_limit', dict(case=c, niter=niter, device=k, x=float(state.v[k]), e=float(state.e[k]),
+                                                               flags=[float(zi[k]), float(zlg[k]), float(zug[k])],
+                                                               expected_x=float(want_x), expected_e=float(want_e)), sig=sigk)
+            prev = (zi.copy(), zlg.copy(), zug.copy())
+        boundary = True
     elif kind in ('RateLimiter', 'AntiWindupRate'):
         # documented: the derivative of the state is clipped to [rate_lower, rate_upper] where the respective condition
         # array enables the limit; AntiWindupRate then applies the anti-windup rule to the clipped derivative
